@@ -183,6 +183,10 @@ func (k checker) runValues(base int) {
 	if c.Mine(base + len(f32Ladder) + 101) {
 		k.afterFailedRead()
 	}
+	if c.Mine(base + len(f32Ladder) + 103) {
+		k.sinks()
+	}
+	c.Bound("e.destinations", fmt.Sprintf("stl.WriteMesh of meshes of 0, 1, 3, 100 and 5000 triangles (with and without normals) to %d kinds of io.Writer; same bytes demanded", len(core.SinkVariants)))
 	if c.Mine(base + len(f32Ladder) + 102) {
 		k.loadAfterReplace()
 	}
@@ -327,4 +331,25 @@ func (k checker) loadAfterReplace() {
 		return
 	}
 	k.c.Eval("files/load-after-replace", "ok")
+}
+
+// ---- the same mesh to every kind of destination ---------------------------------------------------
+
+func (k checker) sinks() {
+	cs := Case{Kind: "sinks"}
+	k.c.Nontrivial("sinks")
+	for _, n := range []int{0, 1, 3, 100, 5000} {
+		for _, mode := range []string{"nonunit", "none"} {
+			m := buildMesh(stripSpec(n), mode)
+			if n == 0 {
+				m = modeling.EmptyMesh(modeling.TriangleTopology)
+			}
+			if why := core.SinkAgreement(func(w io.Writer) error { return stl.WriteMesh(w, m) }); why != "" {
+				k.c.Eval("files/destinations", "mismatch")
+				k.fail("stl.WriteMesh", "writing a mesh yields exactly the 84 + 50*n bytes of that mesh (whatever kind of io.Writer receives them)", "destinations", fmt.Sprintf("%d triangles, normals %s: %s", n, mode, why), cs)
+				return
+			}
+			k.c.Eval("files/destinations", "ok")
+		}
+	}
 }
